@@ -69,10 +69,25 @@ class Program(object):
         self.module = types.ModuleType("verif_generated_%d" % (id(self) % 100000))
         sys.modules[self.module.__name__] = self.module
         self.has_point = any(p["kind"] == "point" for p in case["prog"])
+        self.deferred = []
         self.to_disable = []
         for i, p in enumerate(case["prog"]):
             self._define(i + 1, p)
         self._apply_enabled()
+        if self.deferred:
+            # a first evaluation of the same set of components, then the late registrations
+            quiet = dr.Broker()
+            quiet.store_skips = bool(case["ss"])
+            for c in range(1, self.n + 1):
+                if case["prog"][c - 1]["seeded"]:
+                    quiet[self.comp[c]] = None if case["prog"][c - 1]["outc"] == "none" else Val("seed", c)
+            g = self.graph()
+            if g:
+                dr.run(g, quiet)
+            for reg in self.deferred:
+                reg()
+            self.log[:] = []
+            self.elcount.clear()
 
     # -- projection -------------------------------------------------------
     def cid(self, obj):
@@ -145,9 +160,15 @@ class Program(object):
             base = type("Specs%d_%d" % (id(self) % 100000, c), (SpecSet,), {"p%d" % c: RegistryPoint()})
             point = getattr(base, "p%d" % c)
             self.specsets.append(base)
-            for d in members:
-                impl = type("Impl%d_%d" % (c, d), (base,), {"p%d" % c: self.comp[d]})
-                self.specsets.append(impl)
+            for n, d in enumerate(members):
+                def register(c=c, d=d, base=base):
+                    self.specsets.append(type("Impl%d_%d" % (c, d), (base,), {"p%d" % c: self.comp[d]}))
+                if n == len(members) - 1 and self.variant % 2 and not self.case.get("arch"):
+                    # concretisation variant: the last implementation is registered only after the program
+                    # has been evaluated once in this process (spec packages loaded later, by configuration)
+                    self.deferred.append(register)
+                else:
+                    register()
             self._bind(c, point, p)
             return
 
